@@ -293,6 +293,8 @@ def oracle(ctx):
     from props import c01_e2e
     from props import c01_hist
     c01_hist.run(ctx)            # first: before this process has converted much else in oracle mode
+    from props import c01_conc
+    c01_conc.run(ctx)
     c01_e2e.serializer_oracle(ctx)
     c01_e2e.e2e_oracle(ctx)
     if not ctx.search_mode:
@@ -311,4 +313,7 @@ def replay(ctx, case):
     if "history" in c:
         from props import c01_hist
         return c01_hist.replay(c)
+    if c.get("concurrent"):
+        from props import c01_conc
+        return c01_conc.replay(c)
     return c01_e2e.replay_case(c)
